@@ -48,6 +48,7 @@ type wireMsg struct {
 }
 
 type sock struct {
+	writing   int // WriteJSON calls in progress
 	h         *connHarness
 	in        chan []byte
 	closed    chan struct{}
@@ -73,6 +74,14 @@ func (s *sock) ReadJSON(v interface{}) error {
 }
 
 func (s *sock) WriteJSON(v interface{}) error {
+	// one frame at a time: gorilla/websocket panics ("concurrent write to
+	// websocket connection") or interleaves the frames of two writers
+	if s.writing > 0 {
+		s.h.c.ViolateFor("C02,C15,C16,C17", "concurrent-socket-write", "WriteJSON was called by task %s while another WriteJSON on the same socket was still in progress", simrt.CurName())
+	}
+	s.writing++
+	defer func() { s.writing-- }()
+	simrt.Yield()
 	b, err := json.Marshal(v)
 	if err != nil {
 		s.h.c.Violate("unserialisable-envelope", "WriteJSON got a value that does not serialise: %v", err)
@@ -210,6 +219,24 @@ type connHarness struct {
 	clientClosed bool
 	writeFailed  bool
 	loopErrors   map[int]int // error envelopes written by the read loop, by index of the message being handled
+}
+
+// execLogger is the connection's GraphqlLogger. Reporting an error can be
+// slow (a logger that ships errors over the network): the computation that
+// failed is still inside Error while its error envelope is already on the wire.
+type execLogger struct{ h *connHarness }
+
+func (l execLogger) StartExecution(ctx context.Context, tags map[string]string, initial bool) {}
+func (l execLogger) FinishExecution(ctx context.Context, tags map[string]string, delay time.Duration) {
+}
+func (l execLogger) Error(ctx context.Context, err error, tags map[string]string) {
+	if !l.h.faulty {
+		return
+	}
+	if d := l.h.c.Biased(4, 700, "error-logger-slow"); d > 0 {
+		l.h.c.Fault("error-logger-slow")
+		simrt.Sleep([]time.Duration{0, 5 * time.Millisecond, 100 * time.Millisecond, time.Second}[d])
+	}
 }
 
 type recLogger struct{ h *connHarness }
@@ -458,7 +485,11 @@ func (h *connHarness) endByError(in *instance) {
 	in.endReason = "initial-failure"
 }
 
-func (h *connHarness) send(kind, id string, payload interface{}, in *instance) {
+// send hands one message to the server's read loop. It reports whether the
+// server took it; a message it did not take within the (generous) bound is
+// withdrawn, so that the count of messages the loop has handled keeps matching
+// the positions in h.sent.
+func (h *connHarness) send(kind, id string, payload interface{}, in *instance) bool {
 	env := map[string]interface{}{"id": id, "type": kind}
 	if payload != nil {
 		env["message"] = payload
@@ -471,14 +502,21 @@ func (h *connHarness) send(kind, id string, payload interface{}, in *instance) {
 	if in != nil {
 		in.msgIndex = len(h.sent) - 1
 	}
-	// never wait unboundedly on the server: it may have stopped reading
-	t := time.NewTimer(5 * time.Second)
+	// never wait unboundedly on the server: it may have stopped reading. The
+	// bound is in simulated time and far above what injected pauses add up to.
+	t := time.NewTimer(10 * time.Minute)
 	defer t.Stop()
 	select {
 	case h.s.in <- b:
+		return true
 	case <-h.s.closed:
+		return false
 	case <-t.C:
-		simrt.Logf("client: server did not read %s within 5s", kind)
+		simrt.Logf("client: server did not read %s within 10 minutes", kind)
+		if n := len(h.sent); n > 0 && h.sent[n-1].kind == kind && h.sent[n-1].id == id {
+			h.sent = h.sent[:n-1]
+		}
+		return false
 	}
 }
 
@@ -577,6 +615,7 @@ func connBody(c *runner.Ctx) {
 	defer cancelCtx()
 	conn := graphql.CreateConnection(ctx, h.s, schema,
 		graphql.WithSubscriptionLogger(recLogger{h}),
+		graphql.WithExecutionLogger(execLogger{h}),
 		graphql.WithMaxSubscriptions(h.maxSubs),
 		graphql.WithMinRerunInterval(minInterval),
 		graphql.WithAlwaysSpawnGoroutineFunc(func(context.Context, *graphql.Query) bool { return spawn }))
@@ -638,15 +677,31 @@ func connBody(c *runner.Ctx) {
 		}
 		envDone = true
 	}()
+	// ops the client has already decided on: after subscribing with a query
+	// that is going to fail it may at once unsubscribe and subscribe again
+	// under the same id (a client that reacts to the error it was sent)
+	type nextOp struct {
+		op int
+		id string
+	}
+	var forced []nextOp
 	for k := 0; k < nOps && !h.s.isClosed && !h.served; k++ {
-		switch c.Choose(4, "pause") {
-		case 1:
-			simrt.Sleep(time.Duration(c.Choose(10, "pause-ms")) * 20 * time.Millisecond)
-		case 2:
-			simrt.Sleep(time.Duration(1+c.Choose(6, "pause-s")) * time.Second)
+		var id string
+		var op int
+		if len(forced) > 0 {
+			id, op = forced[0].id, forced[0].op
+			forced = forced[1:]
+			simrt.Sleep(time.Duration(c.Choose(4, "retry-pause")) * 5 * time.Millisecond)
+		} else {
+			switch c.Choose(4, "pause") {
+			case 1:
+				simrt.Sleep(time.Duration(c.Choose(10, "pause-ms")) * 20 * time.Millisecond)
+			case 2:
+				simrt.Sleep(time.Duration(1+c.Choose(6, "pause-s")) * time.Second)
+			}
+			id = ids[c.Choose(len(ids), "id")]
+			op = c.Choose(12, "op")
 		}
-		id := ids[c.Choose(len(ids), "id")]
-		op := c.Choose(12, "op")
 		switch {
 		case op < 5: // subscribe
 			g := &gen{c: c, w: w, budget: 10, unionFrags: c.Choose(4, "union-type-fragments") == 1, rootTN: true, bareFrags: true}
@@ -660,6 +715,10 @@ func connBody(c *runner.Ctx) {
 			if h.faulty && c.Biased(4, 700, "initial-failure") > 0 {
 				// make one datum the query needs fail on its next invocation
 				h.armFailure(in, c.Choose(7, "failure-kind")+1, 1)
+				if len(forced) == 0 && c.Choose(2, "client-retries-failed-subscription") == 1 {
+					c.Probe("client-resubscribes-after-failure")
+					forced = append(forced, nextOp{5, id}, nextOp{0, id})
+				}
 			}
 			desc = append(desc, fmt.Sprintf("subscribe(%s #%d)", id, in.inst))
 			c.Describe("instance %d id=%s: %s", in.inst, id, in.text)
@@ -673,9 +732,9 @@ func connBody(c *runner.Ctx) {
 				}
 			}
 			idx := len(h.sent)
-			h.send("unsubscribe", id, nil, nil)
+			delivered := h.send("unsubscribe", id, nil, nil)
 			// once the server asks for the next message the unsubscribe has been processed
-			if target != nil {
+			if target != nil && delivered {
 				go func() {
 					for h.processed <= idx && !h.served {
 						simrt.Sleep(time.Millisecond)
